@@ -14,6 +14,7 @@ import (
 	"sort"
 	"strings"
 	"sync"
+	"time"
 
 	"github.com/Oudwins/zog/parsers/zjson"
 	"github.com/Oudwins/zog/zhttp"
@@ -284,6 +285,7 @@ func streamPool(seed uint64, n int) (*Summary, error) {
 	if diff := sameNameTypesProbe(); diff != "" {
 		sum.addViolation("C07", Mismatch{Case: "Struct{name, email} parsed into handler-local `type form struct{Name `zog:\"full_name\"`; Email}` and then into another handler-local `type form struct{Email `zog:\"mail\"`; Name}`", What: "the result of a call depends on the destination type an EARLIER call with the same schema used", Impl: diff})
 	}
+	poolBalanceProbe(sum)
 	for i := 0; i < n; i++ {
 		if i%100 == 99 {
 			runtime.GC() // the collector is off while a probe runs; collect between probes (every probe starts from cleared pools)
@@ -432,4 +434,85 @@ func streamPool(seed uint64, n int) (*Summary, error) {
 	}
 	p.ClearPools()
 	return sum, nil
+}
+
+// poolBalanceProbe (C07, C08): every entry point of every schema kind, on cleared pools, one goroutine, GC off:
+// after the call each pool must hold every object at most ONCE. An object that was put back twice would be
+// handed to two executions at the same time later on.
+func poolBalanceProbe(sum *Summary) {
+	type ent struct {
+		name string
+		run  func()
+	}
+	type rec struct {
+		Name string
+		Tags []string
+		When time.Time
+	}
+	strct := z.Struct(z.Schema{"name": z.String().Required().Min(3), "tags": z.Slice(z.String().Min(2)), "when": z.Time()})
+	pass := func(v any, ctx z.Ctx) (any, error) { return v, nil }
+	vpass := func(v *int, ctx z.Ctx) (int, error) { return *v, nil }
+	ents := []ent{
+		{"String.Parse", func() { var d string; z.String().Min(5).Parse("ab", &d); z.String().Parse("ok", &d) }},
+		{"String.Validate", func() { d := "ab"; z.String().Min(5).Validate(&d) }},
+		{"Int.Parse", func() { var d int; z.Int().GT(5).Parse("zz", &d); z.Int().Parse(3, &d) }},
+		{"Int.Validate", func() { d := 1; z.Int().GT(5).Validate(&d) }},
+		{"Float64.Parse", func() { var d float64; z.Float64().GT(5).Parse(1.5, &d) }},
+		{"Float64.Validate", func() { d := 1.5; z.Float64().GT(5).Validate(&d) }},
+		{"Int32.Validate", func() { d := int32(1); z.Int32().GT(5).Validate(&d) }},
+		{"Bool.Parse", func() { var d bool; z.Bool().True().Parse("zz", &d); z.Bool().Parse(true, &d) }},
+		{"Bool.Validate", func() { d := false; z.Bool().Required().Validate(&d) }},
+		{"Time.Parse", func() { var d time.Time; z.Time().Parse("zz", &d); z.Time().Parse(time.Unix(5, 0), &d) }},
+		{"Time.Validate", func() { d := time.Unix(5, 0); z.Time().After(time.Unix(9, 0)).Validate(&d); z.Time().Validate(&d) }},
+		{"Slice.Parse", func() { var d []string; z.Slice(z.String().Min(2)).Min(3).Parse([]any{"a", "bb"}, &d) }},
+		{"Slice.Validate", func() { d := []string{"a"}; z.Slice(z.String().Min(2)).Validate(&d) }},
+		{"Struct.Parse", func() { var d rec; strct.Parse(map[string]any{"name": "x", "tags": []any{"a"}, "when": "zz"}, &d) }},
+		{"Struct.Validate", func() { d := rec{Name: "x", Tags: []string{"a"}}; strct.Validate(&d) }},
+		{"Ptr.Parse", func() {
+			var d *rec
+			z.Ptr(strct).NotNil().Parse(nil, &d)
+			z.Ptr(strct).Parse(map[string]any{"name": "x"}, &d)
+		}},
+		{"Ptr.Validate", func() {
+			d := &rec{Name: "x"}
+			z.Ptr(strct).Validate(&d)
+			var n *rec
+			z.Ptr(strct).NotNil().Validate(&n)
+		}},
+		{"Custom.Parse", func() {
+			var d int
+			z.CustomFunc(func(p *int, ctx z.Ctx) bool { return *p > 5 }).Parse(1, &d)
+			z.CustomFunc(func(p *int, ctx z.Ctx) bool { return true }).Parse("zz", &d)
+		}},
+		{"Custom.Validate", func() { d := 1; z.CustomFunc(func(p *int, ctx z.Ctx) bool { return *p > 5 }).Validate(&d) }},
+		{"Preprocess.Parse", func() { var d any; z.Preprocess(pass, z.String().Min(5)).Parse("ab", &d) }},
+		{"Preprocess.Validate", func() { d := 1; z.Preprocess(vpass, z.Int().GT(5)).Validate(&d) }},
+	}
+	pools := []struct {
+		name string
+		pool *sync.Pool
+	}{{"ExecCtxPool", &p.ExecCtxPool}, {"SchemaCtxPool", &p.SchemaCtxPool}, {"InternalIssueListPool", &p.InternalIssueListPool}, {"InternalIssueMapPool", &p.InternalIssueMapPool},
+		{"ZogIssuePool", &p.ZogIssuePool}, {"PathBuilderPool", &p.PathBuilderPool}}
+	for _, e := range ents {
+		sum.Evaluations++
+		p.ClearPools()
+		func() {
+			defer func() { recover() }()
+			e.run()
+		}()
+		for _, pl := range pools {
+			seen := map[any]bool{}
+			for k := 0; k < 12; k++ {
+				o := pl.pool.Get()
+				if seen[o] {
+					sum.addViolation("C07", Mismatch{Case: e.name + " on cleared pools, then 12 objects taken from " + pl.name, What: "the pool holds one object twice: the call put it back two times, so two later executions can be handed the same object at the same time"})
+					sum.addViolation("C08", Mismatch{Case: e.name + " on cleared pools, then 12 objects taken from " + pl.name, What: "the pool holds one object twice: the call put it back two times, so two overlapping executions can be handed the same object"})
+					break
+				}
+				seen[o] = true
+			}
+		}
+		sum.Hist["pool_balance_entry_points"]++
+	}
+	p.ClearPools()
 }
